@@ -688,7 +688,8 @@ impl Runtime {
                 return Ok(None);
             } else if let Val::String(field) = self.stack.pop()? {
                 let mut field = field.trim();
-                if var_name.ends_with('$') {
+                // A string variable is one by its `$` or by DEFSTR.
+                if let Val::String(_) = self.vars.fetch(&var_name) {
                     if field.len() >= 2 && field.starts_with('"') && field.ends_with('"') {
                         field = &field[1..field.len() - 1];
                     }
